@@ -20,7 +20,8 @@ pub struct VErr;
 pub uninterp spec fn vid(h: &VecH) -> int;
 #[verifier::external_body] pub struct MapH { x: usize }                 // GcMap
 pub uninterp spec fn mid(h: &MapH) -> int;
-pub enum Primitive { Bool(bool), Int(i32), Optional(Option<Box<Primitive>>), Vector(VecH), Map(MapH), Other(OtherV) }
+pub enum HeapP { ArrayPtr(VecH, usize), Other(OtherV) }
+pub enum Primitive { Bool(bool), Int(i32), Optional(Option<Box<Primitive>>), Vector(VecH), Map(MapH), HeapPrimitive(HeapP), Other(OtherV) }
 impl Primitive { #[verifier::external_body] pub fn vclone(&self) -> (r: Primitive) ensures r == *self { unimplemented!() } }
 impl VecH { #[verifier::external_body] pub fn vclone(&self) -> (r: VecH) ensures vid(&r) == vid(self) { unimplemented!() } }
 impl MapH { #[verifier::external_body] pub fn vclone(&self) -> (r: MapH) ensures mid(&r) == mid(self) { unimplemented!() } }
@@ -240,7 +241,37 @@ pub fn equals_vector(v1: &VecH, v2: &VecH, heap: &Heap) -> (r: Result<bool, VErr
 }}
 """)
     obls.append(Obl("C13.equals.vector", ["C13"], fn="equals_vector", desc="list == list: same length and elementwise equal (not just a common prefix)"))
-    gen = header(log, f"{FUNC}: BuiltInFunction::run arms " + ", ".join(ARMS) + f"; {PRIM}: Primitive::equals (list arm)") + SPEC + "\n".join(fns) + "\n} // verus!\nfn main() {}\n"
+    # vec_op `[idx]` on a list: the bounds check in front of the element pointer
+    fv = src.fn("bytecode/src/instruction.rs", "vec_op", "pub mod implementations")
+    try:
+        arm = extract_match_arm(fv["body"], "Primitive :: Vector ( ref vector_shared )")
+    except Exception as e:
+        raise Undecided(f"instruction.rs: arm Primitive::Vector(ref vector_shared) of vec_op not found: {e}")
+    b = cells_pass(arm["body"], log, "vec_op[index]")
+    b = translate(b, [Rule("R3", "bail ! $a", "return Err ( VErr )", why="bail! -> return Err"),
+                      Rule("R1", ". clone ( )", ". vclone ( )", why="handle clone keeps the cell"),
+                      Rule("R1", "HeapPrimitive :: new_array_view ( $$a )", "HeapP :: ArrayPtr ( $$a )", why="const fn constructor"),
+                      Rule("R13", "ctx . push ( $$e ) ;", "stack . push ( $$e ) ;", why="operand stack as an explicit vector")], log, "vec_op[index]")
+    check_closed(b, "vec_op[index]")
+    fns.append(f"""
+//@ OBL C13.index.vector
+// vec_op `[idx]`, arm `Primitive::Vector(ref vector_shared)`
+pub fn index_vector(vector_shared: &VecH, idx: usize, heap: &Heap, stack: &mut Vec<Primitive>) -> (r: Result<(), VErr>)
+    requires live(heap, vector_shared)
+    ensures
+        // an out-of-range index stops with a failure and yields no value
+        idx >= vecs(heap)[vid(vector_shared)].len() ==> r is Err && final(stack)@ == old(stack)@,
+        // in range: a pointer to exactly that slot of that list is pushed
+        idx < vecs(heap)[vid(vector_shared)].len() ==> r is Ok && final(stack)@.len() == old(stack)@.len() + 1
+            && final(stack)@.last() is HeapPrimitive && final(stack)@.last()->HeapPrimitive_0 is ArrayPtr
+            && vid(&final(stack)@.last()->HeapPrimitive_0->ArrayPtr_0) == vid(vector_shared) && final(stack)@.last()->HeapPrimitive_0->ArrayPtr_1 == idx,
+{{
+{render(b, 1)}
+    Ok(())
+}}
+""")
+    obls.append(Obl("C13.index.vector", ["C13", "C17", "C01"], fn="index_vector", desc="list index read/assignment target: out-of-range index -> failure, no value; in range -> pointer to exactly that slot"))
+    gen = header(log, f"{FUNC}: BuiltInFunction::run arms " + ", ".join(ARMS) + f"; {PRIM}: Primitive::equals (list arm); instruction.rs: vec_op (list index arm)") + SPEC + "\n".join(fns) + "\n} // verus!\nfn main() {}\n"
     return gen, obls, log
 
 
